@@ -23,7 +23,7 @@ RULE = (
 ASSUMPTIONS = ["values stay below 2^24 so float32 is exact (asserted)", "d=2 only for the image part (windowing is independent of d)"]
 CONFIG = {
     "quick": {"examples": 1280, "shards": 16, "shrink_s": 40, "time_budget_s": 240},
-    "thorough": {"examples": 10000, "shards": 16, "shrink_s": 200, "time_budget_s": 1500},
+    "thorough": {"examples": 24000, "shards": 16, "shrink_s": 200, "time_budget_s": 1500},
 }
 TYPES = [(0, 0), (1, 0), (0, 1), (1, 1), (2, 0)]
 
